@@ -39,7 +39,7 @@ RULE = ('random flat netlists (1-7 input bits, 1-5 output bits, 0-3 flip-flops/l
         'distinct = (format, library, branchforks, text); non-trivial = at least 3 statements and an output that takes both values')
 
 VLIBS = ['NANGATE', 'SAED32', 'SAED90', 'GSC180']
-TEXT_FMTS = ('bench',)      # formats whose lexer + grammar are modelled in Lean (Model/BenchText.lean, Model/VerilogText.lean)
+TEXT_FMTS = ('bench', 'verilog')      # formats whose lexer + grammar are modelled in Lean (Model/BenchText.lean, Model/VerilogText.lean)
 
 
 def theorems():
@@ -521,8 +521,100 @@ def text_stream(ck, case, n_mut):
         ck.case(key=('text', fmt, t), nontrivial=False, tag=[f'text-edit:{op.split("+")[0]}:{st}', 'stream:text'])
 
 
+class Unsupported(Exception):
+    pass
+
+
+def verilog_tree_ast(tree):
+    """lark tree of ONE module (grammar only, no transformer) -> (status, ast) in the generator's statement-list form;
+    status 'pos': a positional pin (left out of the ast; VerilogTransformer.module raises), 'unsup': a name with an
+    apostrophe that is not a sized constant"""
+    import re
+
+    def name(t):
+        v = str(t.children[0])
+        return v[1:-1] if v[0] == '\\' else v
+
+    def sel(t):
+        ch = t.children
+        if ch[0].data == 'concat': return ['c', [sel(x) for x in ch[0].children]]
+        n = name(ch[0])
+        if len(ch) > 1:
+            rg = ch[1].children
+            return ['b', n, int(rg[0]), int(rg[1]) if len(rg) > 1 else None]
+        if "'" in n:
+            m = re.fullmatch(r"([0-9]+)'([bdhBDH])([0-9a-fA-F]+)", n)
+            if not m: raise Unsupported(n)
+            return ['k', int(m[1]), m[2], m[3]]
+        return ['n', n]
+    status = 'ok'
+    ch = tree.children
+    ast = {'name': name(ch[0]), 'ports': [name(x) for x in ch[1].children], 'stmts': []}
+    for st in ch[2:]:
+        if st.data in ('input', 'output', 'inout', 'wire', 'tri'):
+            c2 = list(st.children)
+            rg = None
+            if c2 and c2[0].data == 'range':
+                rg = [int(x) for x in c2[0].children]; c2 = c2[1:]
+            ast['stmts'].append(['other'] if st.data == 'tri' else ['decl', 'input' if st.data == 'inout' else st.data, rg, [name(x) for x in c2]])
+        elif st.data == 'assign':
+            ast['stmts'].append(['assign', sel(st.children[0]), sel(st.children[1])])
+        else:
+            pins = []
+            for p in st.children[2:]:
+                q = p.children[0]
+                if q.data == 'namedpin':
+                    pins.append([name(q.children[0]), sel(q.children[1]) if len(q.children) > 1 else None])
+                else:
+                    sel(q); status = 'pos'
+            ast['stmts'].append(['inst', name(st.children[0]), name(st.children[1]), pins])
+    return status, ast
+
+
 def verilog_text_request(ck, ans, tree, tlib, bf, inp, expect_ast):
-    return None
+    """compare the model's parse (driver answer) with lark's tree; returns the `netlist v` request for the model's OWN
+    statement list, or None when there is nothing to build (several modules, positional pins, unsupported names)"""
+    parts = ans.split(' ')
+    mods = tree.children
+    if int(parts[1]) != len(mods):
+        ck.broken_tie('text model (verilog): module count', f'lark {len(mods)} != model {parts[1]}', inp=inp); return None
+    if len(mods) != 1:
+        ck.hist['text:verilog:not-one-module'] += 1
+        try:
+            parse_real({'fmt': 'verilog', 'tlib': tlib, 'bf': bf, 'text': inp['text']})
+            ck.broken_tie('text model (verilog): module count', f'{len(mods)} modules but the real parser returned one circuit', inp=inp)
+        except Exception:
+            pass
+        return None
+    try:
+        status, ast = verilog_tree_ast(mods[0])
+        expect = f"ok 1 {status} {pct(ast['name'])} {enc_verilog(ast)}"
+    except Unsupported:
+        status, ast = 'unsup', None
+        expect = f"ok 1 unsup {pct(verilog_tree_name(mods[0]))} ~"
+    if ans != expect:
+        ck.broken_tie('text model (verilog): statement list', f'lark tree {expect[:300]!r} != model {ans[:300]!r}', inp=inp); return None
+    if status == 'unsup':
+        ck.hist['text:verilog:unsupported-name'] += 1; return None
+    if expect_ast is not None and (enc_verilog(expect_ast) != enc_verilog(ast) or expect_ast['name'] != ast['name']):
+        ck.broken_tie('text model (verilog): statement list', f'generator {enc_verilog(expect_ast)[:300]!r} != model {enc_verilog(ast)[:300]!r}', inp=inp)
+    if status == 'pos':
+        ck.hist['text:verilog:positional-pin'] += 1
+        try:
+            parse_real({'fmt': 'verilog', 'tlib': tlib, 'bf': bf, 'text': inp['text']})
+            ck.broken_tie('text model (verilog): positional pin', 'the real parser returned a circuit', inp=inp)
+        except Exception:
+            pass
+        return None
+    kinds = [s[1] for s in ast['stmts'] if s[0] == 'inst']
+    fix, one = probe_cfg()
+    cfg = f"{1 if bf else 0}{1 if fix else 0}{1 if one else 0}"
+    return f"netlist v {cfg} {enc_pintable(get_tlib(tlib), kinds)} {parts[4]}"
+
+
+def verilog_tree_name(t):
+    v = str(t.children[0].children[0])
+    return v[1:-1] if v[0] == '\\' else v
 
 
 # ---------------------------------------------------------------------------------------------- case construction
